@@ -137,6 +137,9 @@ def run(tier, seed):
                     head += "(define nlc #\\\n)\n(define chs (list #\\a #\\( #\\; #\\space))\n".replace("#\\space", "#\\s"); extra += 2
                 if rng.random() < 0.15:
                     indent += "(list #\\a #\\b #\\c #\\d #\\e #\\f #\\g #\\h #\\i #\\j #\\k #\\l #\\m #\\n) "; extra += 1
+                if rng.random() < 0.2:
+                    # string literals with escape sequences (two source characters each) before the failing form on its own line
+                    indent += '(define strs (list "a\\nb" "q\\"uote" "tab\\there" "back\\\\slash" "\\\\\\"")) '; extra += 1
                 text = head + "".join(p + sep() for p in parts[:-1]) + indent + parts[-1] + rng.choice(["", "\n", "  ; trailing\n", "\n\n(define after 1)\n"])
                 cases.append({"fault": f, "context": c, "text": text, "nforms": len(forms) + extra, "offender": g.offender, "ndefs": len(defs)}); n += 1
     # identifiers that come from a macro template (a user macro calling an undefined helper; unless/case/or on an interpreter that did not import
